@@ -275,6 +275,8 @@ class Interp:
         self.max_iter = max_iter
         self.atoms_walked = 0
         self.stmts_walked = 0
+        self._inline_stack: list = []
+        self.inlined: set[str] = set()
         analysis.fn = fn
         analysis.interp = self
 
@@ -296,8 +298,91 @@ class Interp:
             out.merge_abrupt(res)
         return out
 
+    # -------------------------------------------------------------------------------- private helpers are followed
+    INLINE_DEPTH = 2
+    INLINE_MAX_STMTS = 40
+
+    def _inline_target(self, node: Any):
+        """The private helper (same class: `self._x()` / `self.__x()`, same module: `_x()`) that the call / await atom `node` runs,
+        if it can be interpreted in place: resolved uniquely, not recursive, arguments are the parameters' namesakes (the analyses are
+        name-based), small.  A wrapper extracted by a refactoring is thereby read like the statements it wraps (DESIGN 10.8)."""
+        a = self.a
+        eng = getattr(a, "engine", None)
+        if eng is None or not getattr(a, "inline_helpers", False) or len(self._inline_stack) >= self.INLINE_DEPTH:
+            return None
+        is_await = isinstance(node, ast.Await)
+        call = node.value if is_await and isinstance(node.value, ast.Call) else (node if isinstance(node, ast.Call) else None)
+        if call is None:
+            return None
+        cur = a.fn
+        if cur is None:
+            return None
+        f = call.func
+        g = None
+        if isinstance(f, ast.Attribute) and isinstance(f.value, ast.Name) and cur.self_name is not None and f.value.id == cur.self_name and f.attr.startswith("_") and not f.attr.endswith("__") \
+                and cur.cls is not None:
+            g = cur.cls.methods.get(f.attr)  # defined in this very class (not inherited, not overridable from elsewhere: private by convention)
+        elif isinstance(f, ast.Name) and f.id.startswith("_") and f.id in cur.module.functions:
+            g = cur.module.functions[f.id]
+        if g is None or isinstance(g.node, ast.Lambda) or g is cur or any(g is x for x in self._inline_stack) or g.is_generator:
+            return None
+        if g.is_async != is_await or (not is_await and self._awaited_call(call)):
+            return None
+        if g.has_decorator("property") or g.has_decorator("abstractmethod") or g.has_decorator("contextmanager") or g.has_decorator("asynccontextmanager"):
+            return None
+        veto = getattr(a, "keeps_opaque", None)
+        if veto is not None and veto(g, node):
+            return None
+        args = g.node.args
+        if args.vararg or args.kwarg or sum(1 for _ in ast.walk(g.node) if isinstance(_, ast.stmt)) > self.INLINE_MAX_STMTS:
+            return None
+        params = [x.arg for x in args.posonlyargs + args.args]
+        if g.cls is not None and not g.has_decorator("staticmethod") and params:
+            params = params[1:]
+        given = list(call.args) + [k.value for k in call.keywords]
+        names = params[: len(call.args)] + [k.arg for k in call.keywords]
+        for pn, av in zip(names, given):
+            if isinstance(av, ast.Constant):
+                continue
+            if isinstance(av, ast.Name) and av.id == pn:
+                continue
+            if isinstance(av, ast.Attribute) and isinstance(av.value, ast.Name) and cur.self_name and av.value.id == cur.self_name:
+                continue
+            return None
+        return g
+
+    def _awaited_call(self, call: ast.Call) -> bool:
+        return False
+
+    def _exec_inline(self, node: Any, g: FunctionInfo, facts: FactMap, cond: bool) -> Out:
+        saved_fn, saved_afn, saved_ctx = self.fn, self.a.fn, self.ctx
+        self._inline_stack.append(g)
+        self.fn = g
+        self.a.fn = g
+        self.ctx = Ctx(handler_tokens=list(saved_ctx.handler_tokens), with_stack=list(saved_ctx.with_stack), loop_depth=0, try_stack=list(saved_ctx.try_stack), stmt_stack=list(saved_ctx.stmt_stack))
+        try:
+            r = self.exec_block(g.node.body, dict(facts))
+        finally:
+            self._inline_stack.pop()
+            self.fn, self.a.fn, self.ctx = saved_fn, saved_afn, saved_ctx
+        out = Out()
+        out.merge_abrupt(r)
+        # the callee's returns are the caller's normal continuation
+        fm_merge(out.normal, r.normal)
+        fm_merge(out.normal, out.ret)
+        out.ret = {}
+        out.brk, out.cont = {}, {}
+        if cond:
+            fm_merge(out.normal, facts)
+        self.inlined.add(g.qualname)
+        return out
+
     # -------------------------------------------------------------------------------- atoms
     def exec_atom(self, node: Any, facts: FactMap, cond: bool = False) -> Out:
+        if isinstance(node, (ast.Call, ast.Await)) and facts:
+            g = self._inline_target(node)
+            if g is not None:
+                return self._exec_inline(node, g, facts, cond)
         out = Out()
         self.atoms_walked += 1
         line = getattr(node, "lineno", 0)
